@@ -197,11 +197,15 @@ def check_C17(o, tier):
     if not _witnesses(o, prof):
         prof.cleanup()
         return
-    # a small run first: on a tree where the conversion hangs or fails this reports quickly
-    if not _run(o, prof, "gen", {"VERIF_SEED": o.seed + 1000, "VERIF_N": 40}, "ingest-smoke"):
+    def named_input():
+        """has a violation with a failing input (a monitor hit) been reported already?"""
+        return any(not tail for (_, _, tail) in o.violations)
+    # a small run first: on a tree where the conversion hangs or fails this reports quickly; when the model and the
+    # implementation merely disagree there, the larger streams go on looking for an input on which a monitor fails
+    if not _run(o, prof, "gen", {"VERIF_SEED": o.seed + 1000, "VERIF_N": 40}, "ingest-smoke") and named_input():
         prof.cleanup()
         return
-    if not _run(o, prof, "enum", {"VERIF_DEPTH": 1 if tier == "quick" else 2}, "ingest-enum"):
+    if not _run(o, prof, "enum", {"VERIF_DEPTH": 1 if tier == "quick" else 2}, "ingest-enum") and named_input():
         prof.cleanup()
         return
     if tier == "quick":
@@ -224,6 +228,29 @@ def extra_C14(o, tier):
                   {"C14.ro-open-changed"}, nontrivial=lambda a, b: a.split(" ", 1)[0] in REQUESTS)
     o.cov["rule"] = o.cov.get("rule", "") + (" | ingest-ro: generated legacy layouts (fallback tags to convert) opened read-only and under a "
                                              "memory store, directory snapshot compared")
+    prof.cleanup()
+
+
+def extra_C09(o, tier):
+    """C09 "every history of ... conversions and every crash point": the conversion of fallback tags interrupted after any
+    subset of the blobs it writes (and before index.json is saved), then repeated by a fresh open - the CRASH requests of the
+    ingest profile - judged by the conversion monitors (nothing lost, same observations as an uninterrupted conversion)"""
+    prof = ingest_profile(o)
+    if prof is None:
+        return
+    for name in ("F30-interrupted-then-repeated",):
+        ops = WITNESSES[name]
+        im, mo, mn = prof.replay(list(ops), tag="witness")
+        hits = [m for m in mon_parse(mn or []) if m[1] in C17_MONITORS]
+        o.cov["evaluations"] += len(ops)
+        if hits:
+            o.violation("interrupted conversion (%s): monitor %s fails on the implementation: %s" % (name, hits[0][1], hits[0][2][:300]),
+                        {"kind": "monitor", "profile": "ingest-witness", "monitor": hits[0][1], "detail": hits[0][2], "ops": list(ops),
+                         "implementation": im, "model": mo, "monitors": mn, "replay_cmd": "bin/check C17 --replay <this file>"})
+    check_profile(o, prof, "gen", {"VERIF_SEED": o.seed + 77, "VERIF_N": 400 if tier == "quick" else 8000}, "ingest-crash",
+                  C17_MONITORS, nontrivial=lambda a, b: a.split(" ", 1)[0] in REQUESTS)
+    o.cov["rule"] = o.cov.get("rule", "") + (" | ingest-crash: generated legacy layouts whose conversion is interrupted after any subset of the "
+                                             "blobs it writes and then repeated (CRASH requests of the C17 harness)")
     prof.cleanup()
 
 
